@@ -64,6 +64,7 @@ class SArray:
         a = numpy.empty((), object); a[()] = x
         return SArray(a, kind)
     def __repr__(s): return f'SArray<{s.kind}>{s.a!r}'
+    def __format__(s, spec): return '<symarray>'
     def setflags(s, **kw): s.a.setflags(**kw)
     def fill(s, v): s.a.fill(s._elem(v))
     def copy(s): return SArray(s.a.copy(), s.kind)
@@ -254,8 +255,8 @@ UFT[numpy.ceil] = (_ceil, _k_same)
 UFT[numpy.logical_xor] = (_lxor, _k_bool)
 UFT[numpy.bitwise_xor] = (_lxor, _k_same)
 UFT[numpy.square] = (lambda x: x * x, _k_same)
-UFT[numpy.isnan] = (lambda x: False, _k_bool)
-UFT[numpy.isfinite] = (lambda x: True, _k_bool)
+UFT[numpy.isnan] = (lambda x: False if isinstance(x, Sym) else bool(numpy.isnan(x)), _k_bool)
+UFT[numpy.isfinite] = (lambda x: True if isinstance(x, Sym) else bool(numpy.isfinite(x)), _k_bool)
 UFT[numpy.hypot] = (lambda x, y: (x * x + y * y) ** .5, _k_float)
 
 def _prep(x, kind=None):
@@ -626,11 +627,26 @@ def _rmi(multi_index, dims, **kw):
     return r
 @handles(numpy.linalg.solve)
 def _lsolve(a, b):
-    return numpy.einsum('...ij,...jk->...ik', _inv(a), SArray.wrap(b))
+    b = SArray.wrap(b)
+    if b.ndim == 1: return numpy.einsum('...ij,...j->...i', _inv(a), b)
+    return numpy.einsum('...ij,...jk->...ik', _inv(a), b)
+NORM_ABSTRACT = [False]   # True: norm(x) = fresh n >= 0 with (n == 0 <=> x == 0) instead of n^2 == sum x^2
 @handles(numpy.linalg.norm)
 def _norm(a, ord=None, axis=None, **kw):
     a = SArray.wrap(a)
     if ord is not None: raise Unsupported('norm ord')
+    if NORM_ABSTRACT[0]:
+        if a.kind == 'c': raise Unsupported('abstract complex norm')
+        ax = tuple(range(a.ndim)) if axis is None else ((axis,) if isinstance(axis, int) else tuple(axis))
+        moved = numpy.moveaxis(a.a, ax, tuple(range(len(ax))))
+        flat = moved.reshape((-1,) + moved.shape[len(ax):])
+        out = numpy.empty(flat.shape[1:], object)
+        for i in numpy.ndindex(*out.shape):
+            xs = [lift(x).cast('f').t for x in flat[(slice(None),) + i]]
+            n = ctx().fresh(z3.RealSort(), 'norm')
+            ctx().side.append(z3.And(n >= 0, (n == 0) == z3.And(*[x == 0 for x in xs]) if xs else n == 0))
+            out[i] = SReal(n)
+        return SArray(out, 'f')
     sq = numpy.sum(a * numpy.conjugate(a) if a.kind == 'c' else a * a, axis=axis)
     return numpy.sqrt(numpy.real(sq) if a.kind == 'c' else sq)
 @handles(numpy.real)
@@ -643,8 +659,6 @@ def _shape(a): return a.shape
 def _ndim(a): return a.ndim
 @handles(numpy.zeros_like, numpy.empty_like)
 def _zeros_like(a, dtype=None, **kw): return SArray.wrap(numpy.zeros(a.shape, dtype or a.dtype))
-@handles(numpy.isfinite)
-def _isfinite(a): return SArray.wrap(numpy.ones(a.shape, bool))
 
 # ---------------------------------------------------------------- numpy proxy module
 
